@@ -19,6 +19,14 @@ int main() {
     std::string c, p, m; serializeJson(d, c); serializeJsonPretty(d, p); serializeMsgPack(d, m);
     printf(" "); hex(t); printf(":"); hex(c); printf(":"); hex(p); printf(":"); hex(m);
   }
+  printf("\nmpback_rows");
+  for (const char* t : docs) {
+    JsonDocument d; deserializeJson(d, (const char*)t, DeserializationOption::NestingLimit(20));
+    std::string m; serializeMsgPack(d, m);
+    JsonDocument d2; DeserializationError e = deserializeMsgPack(d2, m, DeserializationOption::NestingLimit(20));
+    std::string c2; serializeJson(d2, c2);
+    printf(" "); hex(m); printf(":%d:", e == DeserializationError::Ok ? 0 : 3); hex(c2);
+  }
   printf("\n");
   const char* filters[] = {"true", "false", "null", "{\"a\":true}", "{\"a\":{\"b\":true}}", "[true]", "[{\"a\":true}]", "{\"*\":true}", "{\"*\":{\"a\":true},\"b\":false}", "{\"a\":[true]}", "{}", "[]", "1", "\"x\""};
   const char* texts[] = {"{\"a\":1,\"b\":2}", "{\"a\":{\"b\":3,\"c\":4},\"b\":{\"a\":5}}", "[1,{\"a\":2,\"b\":3},[4]]", "{\"a\":[1,2,{\"a\":3}],\"c\":\"s\"}", "7", "\"s\"", "[[1],[2]]", "{\"a\":1,\"a\":[2]}", "{\"b\":{\"a\":1,\"z\":2}}"};
